@@ -206,6 +206,32 @@ func artefactConformance(run *core.Run) {
 			run.Count("atn_decisions_"+strings.ToLower(kind), int64(len(atn.DecisionToState)))
 			run.Eval(1)
 		}()
+		// layer 1b: the generated parser CODE has the same shape in the three packages (state and decision numbers in
+		// order of appearance): a hand edit of one generated parser that leaves the automaton alone shows here
+		if kind == "Parser" {
+			gs, gd := g4.CodeFingerprint(goSrc, "go")
+			ts, td := g4.CodeFingerprint(tsSrc, "ts")
+			js, jd := g4.CodeFingerprint(javaSrc, "java")
+			run.Count("generated_code_state_numbers", int64(len(gs)))
+			run.Count("generated_code_prediction_decisions", int64(len(gd)))
+			if len(gs) == 0 || len(gd) == 0 {
+				run.Inconclusive("no state / decision numbers found in the generated Go parser (pattern outdated?)")
+			} else {
+				if why := eqInts(gs, ts); why != "" {
+					run.Violation("generated-code-shape-differs:go-vs-js:states", c, "identical sequence of SetState numbers", why)
+				}
+				if why := eqInts(gs, js); why != "" {
+					run.Violation("generated-code-shape-differs:go-vs-java:states", c, "identical sequence of SetState numbers", why)
+				}
+				if why := eqInts(gd, td); why != "" {
+					run.Violation("generated-code-shape-differs:go-vs-js:decisions", c, "identical sequence of adaptivePredict decisions", why)
+				}
+				if why := eqInts(gd, jd); why != "" {
+					run.Violation("generated-code-shape-differs:go-vs-java:decisions", c, "identical sequence of adaptivePredict decisions", why)
+				}
+			}
+			run.Eval(4)
+		}
 		// layer 2: vocabularies
 		gn, err1 := g4.GoNames(goSrc)
 		tn, err2 := g4.TSNames(tsSrc)
@@ -254,6 +280,31 @@ func artefactConformance(run *core.Run) {
 		}
 		cmp("literal names", gn.Literal, trimEmpty(wantLit), "generated-vs-OpenFGALexer.g4")
 		if kind == "Lexer" {
+			// literal-only lexer rules of the .g4 (keywords, operators, parameter types): every literal must lex to the
+			// rule's token in the rule's mode - a partial conformance check of the lexer that needs no model of ANTLR
+			for _, lr := range lg.LiteralRules {
+				for _, lit := range lr.Literals {
+					var txt string
+					switch lr.Mode {
+					case "DEFAULT_MODE":
+						txt = lit
+					case "CONDITION_DEF":
+						txt = "condition c(x: " + lit
+					default:
+						continue
+					}
+					names, _ := lexNames(txt)
+					got := ""
+					if len(names) >= 2 {
+						got = names[len(names)-2] // the token before EOF
+					}
+					run.Eval(1)
+					run.Count("lexer_literals_checked", 1)
+					if got != lr.Token {
+						run.Violation("lexer-literal-of-the-grammar-not-lexed:"+lr.Name, &core.Case{Kind: "text", DSL: txt}, fmt.Sprintf("literal '%s' of rule %s lexes to %s", lit, lr.Name, lr.Token), fmt.Sprintf("tokens %v", names))
+					}
+				}
+			}
 			cmp("rule names", gn.Rule, lg.Rules, "generated-vs-OpenFGALexer.g4")
 			cmp("mode names", gn.Mode, lg.Modes, "generated-vs-OpenFGALexer.g4")
 		} else {
